@@ -108,8 +108,82 @@ __xml_namespace__ = "https://dummy.com/gen"
 '''
 
 
+DIAMOND_MODEL = mmgen.IMPORTS + '''
+@abstract
+class Top(DBC):
+    top_text: str
+
+    def __init__(self, top_text: str) -> None:
+        self.top_text = top_text
+
+
+@abstract
+class Left(Top):
+    left_text: str
+
+    def __init__(self, top_text: str, left_text: str) -> None:
+        Top.__init__(self, top_text=top_text)
+        self.left_text = left_text
+
+
+@abstract
+class Right(Top):
+    right_text: str
+
+    def __init__(self, top_text: str, right_text: str) -> None:
+        Top.__init__(self, top_text=top_text)
+        self.right_text = right_text
+
+
+class Bottom(Left, Right):
+    def __init__(self, top_text: str, left_text: str, right_text: str) -> None:
+        Left.__init__(self, top_text=top_text, left_text=left_text)
+        Right.__init__(self, top_text=top_text, right_text=right_text)
+
+
+__version__ = "V0.1"
+__xml_namespace__ = "https://dummy.com/gen"
+'''
+
+DIAMOND_OPTIONAL_MODEL = mmgen.IMPORTS + '''
+@abstract
+class Top(DBC):
+    top_a: Optional[str]
+
+    top_b: Optional[str]
+
+    def __init__(self, top_a: Optional[str] = None, top_b: Optional[str] = None) -> None:
+        self.top_a = top_a
+        self.top_b = top_b
+
+
+@abstract
+class Left(Top):
+    def __init__(self, top_a: Optional[str] = None, top_b: Optional[str] = None) -> None:
+        Top.__init__(self, top_a=top_a, top_b=top_b)
+
+
+@abstract
+class Right(Top):
+    def __init__(self, top_a: Optional[str] = None, top_b: Optional[str] = None) -> None:
+        Top.__init__(self, top_a=top_a, top_b=top_b)
+
+
+class Bottom(Left, Right):
+    def __init__(self, top_a: Optional[str] = None, top_b: Optional[str] = None) -> None:
+        Left.__init__(self, top_a=top_a, top_b=top_b)
+        Right.__init__(self, top_a=top_a, top_b=top_b)
+
+
+__version__ = "V0.1"
+__xml_namespace__ = "https://dummy.com/gen"
+'''
+
+
 def targeted_models() -> List[Tuple[str, str]]:
     return [
+        ("targeted/diamond/required-properties", DIAMOND_MODEL),
+        ("targeted/diamond/optional-properties", DIAMOND_OPTIONAL_MODEL),
         ("targeted/guard-on-other-property/length", CROSS_GUARD_MODEL),
         ("targeted/guard-on-other-property/pattern", CROSS_GUARD_PATTERN_MODEL),
         ("targeted/two-patterns-own-and-constrained-primitive", TWO_PATTERNS_MODEL),
@@ -235,7 +309,11 @@ def xsd_outcome(chk: harness.Check, run: xschema.XsdRun, base: Dict[str, Any], w
     kind, msg = xschema.refusal_class(run.stderr)
     chk.hist("xsd_refusals", f"{kind}:{msg}")
     if kind == "pattern-translation":
-        causes = sorted({c for c in (xschema.cause_of(p) for p in patterns) if c})
+        if any(xschema.mentions_non_xml_character(p) for p in patterns):
+            # a pattern over characters that no XML document can hold: refusing is right
+            chk.count("xsd_refusals_for_patterns_with_non_xml_characters")
+            return False
+        causes = sorted({c for c in (xschema.confirmed_cause_of_refusal(p) for p in patterns) if c})
         chk.violation(
             "xsd-refused/pattern-translation/" + (causes[0] if causes else msg),
             dict(base, stderr=run.stderr[-2500:], patterns=patterns[:8]),
@@ -255,14 +333,20 @@ def schema_validity(chk: harness.Check, validators: xschema.Validators, base: Di
             keys.setdefault(xschema.schema_error_key(err, validators.xsd_text), []).append(version)
         for key, versions in keys.items():
             flagged.add(key)
+            if key.startswith("validator-limitation/"):
+                chk.count("schemas_not_judged_for_a_limitation_of_the_validator")
+                chk.hist("validator_limitations", key)
+                continue
             chk.violation(
                 "xsd-invalid/" + key,
                 dict(base, refused_by=versions, schema=validators.xsd_text[:6000],
                      error=str(validators.errors[versions[0]])[:1500]),
             )
+    grammar_ok = True
     for value, esc in xschema.strict_escape_scan(validators.xsd_text):
         key = f"pattern/escape-not-in-xsd-grammar:{esc}"
         chk.count("patterns_with_escape_outside_xsd_grammar")
+        grammar_ok = False  # whatever a lenient processor makes of it is not judged
         if key in flagged:
             continue
         flagged.add(key)
@@ -271,7 +355,7 @@ def schema_validity(chk: harness.Check, validators: xschema.Validators, base: Di
             dict(base, refused_by=["W3C XSD regex grammar (single/multi-character escapes)"],
                  emitted_pattern=value, schema=validators.xsd_text[:6000]),
         )
-    return validators.ok
+    return validators.ok and grammar_ok
 
 
 def inheritance_shape(pm: pyexec.PyModel, cls: str) -> str:
@@ -438,6 +522,14 @@ def check_model(chk: harness.Check, name: str, text: str, rng: Any, n_instances:
                     continue
                 rejected = True
                 key = rejection_key(pm, exp, nodes, inst, first)
+                if xschema.reason_kind(first.reason) == "pattern":
+                    if any(xschema.has_escaped_range_start(v) for v in xschema.pattern_values(validators.xsd_text)):
+                        chk.count("rejections_not_judged_for_a_limitation_of_the_validator")
+                        continue
+                    if xschema.xmllint_verdict(validators.xsd_text, doc) is True:
+                        chk.count("rejections_not_confirmed_by_xmllint")
+                        chk.hist("validator_disagreements", "document: xmlschema rejects (pattern) / xmllint accepts")
+                        continue
                 chk.violation(
                     key,
                     dict(witness, document=doc[:4000], validator=f"xmlschema XSD {version}",
@@ -509,6 +601,11 @@ def check_pattern(chk: harness.Check, lab: xschema.PatternLab, source: str, patt
             chk.count("pattern_models_without_xs_pattern")
             chk.case()
             return
+        if xschema.has_escaped_range_start(case.emitted):
+            chk.count("patterns_not_judged_for_a_limitation_of_the_validator")
+            chk.hist("validator_limitations", "validator-limitation/range-starts-with-an-escape")
+            chk.case()
+            return
         try:
             with rg.time_limit(3.0):
                 strings = rg.sample_strings(pattern, rng, n_strings, allow_surrogates=False)
@@ -540,6 +637,13 @@ def check_pattern(chk: harness.Check, lab: xschema.PatternLab, source: str, patt
                  if members and source != "targeted" else None)
         if failing is not None:
             s, verdicts = failing
+            lint = xschema.xmllint_verdict(
+                case.validators.xsd_text, ET.tostring(lab.document(s), encoding="unicode")
+            )
+            if lint is True:
+                chk.count("rejections_not_confirmed_by_xmllint")
+                chk.hist("validator_disagreements", "member: xmlschema rejects / xmllint accepts: " + rg.skeleton(pattern))
+                return
             minimal = None
             if shrinks_left[0] > 0:
                 shrinks_left[0] -= 1
@@ -553,7 +657,7 @@ def check_pattern(chk: harness.Check, lab: xschema.PatternLab, source: str, patt
             chk.violation(
                 key,
                 dict(base, string=s, python_re_match=True, xsd_accepts=verdicts,
-                     minimal_pattern=minimal,
+                     xmllint_accepts=lint, minimal_pattern=minimal,
                      minimal_translation=xschema.real_translate(minimal) if minimal else None),
             )
     finally:
@@ -600,6 +704,9 @@ def worker(args) -> Dict[str, Any]:
         first: List[Tuple[str, str, Optional[Dict[str, str]]]] = []
         targeted = targeted_models()
         first += [(n, t, None) for k, (n, t) in enumerate(targeted) if k % n_shards == shard]
+        # the repository's own xsd fixtures (the v3 one takes minutes: never near the deadline)
+        fixtures = [(n, t, s) for n, t, s in fixture_cases() if chk.tier == "thorough" or "v3" not in n]
+        first += [f for k, f in enumerate(fixtures) if (k + 1) % n_shards == shard]
         run_models(first, budget)
         # ---- (c) patterns: cheap
         lab = xschema.PatternLab()
@@ -615,8 +722,6 @@ def worker(args) -> Dict[str, Any]:
         models: List[Tuple[str, str, Optional[Dict[str, str]]]] = []
         extra: List[Tuple[str, str, Optional[Dict[str, str]]]] = []
         extra += [(n, t, None) for n, t in corpus.small_common()]
-        extra += [(n, t, s) for n, t, s in fixture_cases()
-                  if chk.tier == "thorough" or "v3" not in n]
         extra = [e for k, e in enumerate(extra) if k % n_shards == shard]
         mmg: List[Tuple[str, str, Optional[Dict[str, str]]]] = []
         for i in range(shard, n_models, n_shards):
@@ -641,7 +746,7 @@ def worker(args) -> Dict[str, Any]:
 def main(argv) -> int:
     chk = harness.Check("C13", "exploration", RULE, argv)
     n_models = chk.pick(72, 1200)
-    n_instances = chk.pick(30, 100)
+    n_instances = chk.pick(30, 60)
     n_patterns = chk.pick(240, 4000)
     n_strings = chk.pick(30, 60)
     n_shards = max(1, WORKERS)
@@ -656,10 +761,10 @@ def main(argv) -> int:
                 chk.merge(job.result())
             except Exception as err:
                 chk.harness_error(f"worker failed: {err!r}")
-    chk.require_min("schemas_loaded_in_xsd10_and_xsd11", chk.pick(60, 1000))
-    chk.require_min("documents_validated", chk.pick(150, 6000))
-    chk.require_min("constrained_values_in_validated_documents", chk.pick(150, 5000))
-    chk.require_min("pattern_member_strings_validated", chk.pick(200, 5000))
+    chk.require_min("schemas_loaded_in_xsd10_and_xsd11", chk.pick(60, 250))
+    chk.require_min("documents_validated", chk.pick(150, 1500))
+    chk.require_min("constrained_values_in_validated_documents", chk.pick(150, 1500))
+    chk.require_min("pattern_member_strings_validated", chk.pick(200, 1200))
     chk.assume("a document is judged only if Python evaluates every invariant of the instance to True and all its strings are XML 1.0 characters (no line breaks when the model declares a pattern)")
     chk.assume("an escape inside xs:pattern that the XSD regex grammar (XSD 1.0 app. F / 1.1 app. G) does not define makes the schema invalid even where xmlschema and libxml2 tolerate it")
     chk.assume("xmllint is reported as a second opinion only")
